@@ -274,6 +274,9 @@ def _group(args):
             else:
                 _, typ, label, body = case
                 stats["invalid"] += 1
+                for c_ in ("cal", "ab"):
+                    if s.req("DELETE", s.url(c_, "plain-copy.txt")).status == 204:
+                        pass
                 coll = "cal" if typ == "ics" else "ab"
                 name = "inv.%s" % typ
                 ct = B.CT_ICS if typ == "ics" else B.CT_VCF
@@ -282,6 +285,13 @@ def _group(args):
                     coll = "ab" if typ == "ics" else "cal"
                 if label.startswith("ct["):
                     spelled = ct = label[3:label.index("]")]
+                # the same bytes may already be in the collection under a media type that is not validated (a plain file):
+                # that must not make them acceptable as a calendar / card
+                plain = None
+                if body and not label.startswith(("ct[", "other-collection:")):
+                    rp_ = s.req("PUT", s.url(coll, "plain-copy.txt"), {"Content-Type": "text/plain"}, body)
+                    if dav.effective_status(rp_) in (201, 204):
+                        plain = s.url(coll, "plain-copy.txt")
                 before = (s.listing(coll), dir_listing(s.root, coll) if tree else None, s.audit_tag(coll))
                 r1 = s.req("PUT", s.url(coll, name), {"Content-Type": ct}, body)
                 st1 = dav.effective_status(r1)
@@ -314,7 +324,7 @@ def _group(args):
                         (ical.parse_calendar if typ == "ics" else ical.parse_vcard)(g.body)
                     except Exception:
                         parses = False
-                    vio("invalid-body-stored:%s:%s%s" % (typ, cls, "" if parses else ":served-unparseable"), "a body of the invalid class %s was acknowledged with %s" % (label, st1), {"label": label, "body": body, "served": g.body})
+                    vio("invalid-body-stored:%s:%s%s" % (typ, cls, "" if parses else ":served-unparseable"), "a body of the invalid class %s was acknowledged with %s%s" % (label, st1, " (the same bytes were in the collection as a text/plain file)" if plain else ""), {"label": label, "body": body, "served": g.body})
                     s.req("DELETE", s.url(coll, name))
                     continue
                 stats["invalid_refused"] += 1
